@@ -19,6 +19,7 @@ use smartcore::neighbors::knn_regressor::{KNNRegressor, KNNRegressorParameters};
 use smartcore::neighbors::KNNWeightFunction;
 use smartcore::verif::HeapSelection;
 use std::cmp::Ordering;
+use std::sync::atomic::{AtomicUsize, Ordering as AtomicOrdering};
 use std::sync::OnceLock;
 
 // ------------------------------------------------------------------------------------ metrics
@@ -165,6 +166,25 @@ impl<T: RealNumber, D: Distance<Vec<T>, T>> Knn<T, D> {
     }
 }
 
+/// The two degenerate construction classes fail on every single case that contains them. The runner
+/// stores at most 20 000 violation records per run; so that these records cannot crowd out other
+/// classes in the thorough tier, each of the two signatures is reported for the first
+/// `DEGENERATE_REPORT_CAP` occurrences of a run and only counted afterwards.
+const DEGENERATE_REPORT_CAP: usize = 3000;
+static DEGENERATE_N1: AtomicUsize = AtomicUsize::new(0);
+static DEGENERATE_IDENTICAL: AtomicUsize = AtomicUsize::new(0);
+
+fn throttled(sig: &str) -> bool {
+    let counter = if sig == "covertree/n=1" {
+        &DEGENERATE_N1
+    } else if sig == "covertree/all-identical" {
+        &DEGENERATE_IDENTICAL
+    } else {
+        return false;
+    };
+    counter.fetch_add(1, AtomicOrdering::Relaxed) >= DEGENERATE_REPORT_CAP
+}
+
 /// Like `Case::must`, but the known-finding signature is chosen by the caller (from the panic info).
 fn must_sig<R>(c: &mut Case, what: &str, sig: impl FnOnce(&PanicInfo) -> String, f: impl FnOnce() -> R) -> Option<R> {
     let oracle = format!("no-panic:{}", what);
@@ -178,7 +198,11 @@ fn must_sig<R>(c: &mut Case, what: &str, sig: impl FnOnce(&PanicInfo) -> String,
                 c.violate(&format!("termination:{}", what), "step-budget", p.short());
             } else {
                 let s = sig(&p);
-                c.violate(&oracle, &s, p.short());
+                if throttled(&s) {
+                    c.count(&format!("{}:{}:not-re-reported-beyond-{}", oracle, s, DEGENERATE_REPORT_CAP));
+                } else {
+                    c.violate(&oracle, &s, p.short());
+                }
             }
             None
         }
@@ -461,8 +485,10 @@ fn run_structure<T: RealNumber, D: Distance<Vec<T>, T>>(c: &mut Case, rows: &[Ve
 // ------------------------------------------------------------------------------------ generators
 fn draw_n(rng: &mut Rng, nmax: usize) -> usize {
     let r = rng.f();
-    if r < 0.35 {
+    if r < 0.05 {
         rng.us(1, 8.min(nmax))
+    } else if r < 0.40 {
+        rng.us(2, 8.min(nmax))
     } else if r < 0.75 {
         rng.us(2, 30.min(nmax))
     } else {
@@ -481,13 +507,13 @@ fn draw_rows(rng: &mut Rng, nmax: usize) -> (Vec<Vec<f64>>, &'static str) {
     let scale = *rng.pick(&[1e-3, 1.0, 1.0, 1.0, 10.0, 1e3]);
     let offset = *rng.pick(&[0.0, 0.0, 5.0, -100.0]) * scale;
     let r = rng.f();
-    let kind: &'static str = if r < 0.20 {
+    let kind: &'static str = if r < 0.22 {
         "continuous"
-    } else if r < 0.40 {
+    } else if r < 0.45 {
         "lattice"
-    } else if r < 0.46 {
+    } else if r < 0.475 {
         "identical"
-    } else if r < 0.56 {
+    } else if r < 0.595 {
         "collinear"
     } else if r < 0.61 {
         "single"
@@ -531,7 +557,7 @@ fn draw_rows(rng: &mut Rng, nmax: usize) -> (Vec<Vec<f64>>, &'static str) {
             vec![if rng.bool(0.5) { cont_point(rng, d, scale, offset) } else { (0..d).map(|_| rng.int(0, 2) as f64).collect() }]
         }
         "duplicate-heavy" => {
-            let m = rng.us(1, (n / 2).max(1));
+            let m = if n >= 2 { rng.us(2, (n / 2).max(2)) } else { 1 };
             let base: Vec<Vec<f64>> = (0..m).map(|_| cont_point(rng, d, scale, offset)).collect();
             (0..n).map(|_| base[rng.below(m)].clone()).collect()
         }
@@ -1392,13 +1418,14 @@ fn main() {
             "estimator oracles accept every valid k-nearest set (all points closer than the k-th distance + any choice among those exactly at it); vote ties within 1e-12 of the total weight and means within 1e-12 max|y| are accepted",
             "classifier k = 1 is not exercised (the statement names k = 2 as the classifier's smallest k)",
             "lattice3x3 enumerates multisets completely; the insertion order (which the cover tree depends on) is the canonical order plus one seeded permutation",
+            "construction panics of the two degenerate classes (covertree/n=1, covertree/all-identical) are reported for their first 3000 occurrences per run and only counted afterwards (the runner keeps at most 20000 violation records)",
         ],
         families: vec![
-            Family::new("search", 12000, 250000, search),
+            Family::new("search", 12000, 500000, search),
             Family::new("lattice3x3", LATTICE_MULTISETS, LATTICE_MULTISETS, lattice3x3).exhaustive(true, true),
-            Family::new("heap", 6000, 100000, heap),
-            Family::new("knn_regressor", 4000, 80000, knn_regressor),
-            Family::new("knn_classifier", 4000, 80000, knn_classifier),
+            Family::new("heap", 6000, 200000, heap),
+            Family::new("knn_regressor", 4000, 150000, knn_regressor),
+            Family::new("knn_classifier", 4000, 150000, knn_classifier),
         ],
         min_nontrivial: 4000,
         case_timeout_s: 120,
